@@ -121,6 +121,12 @@ def may_raise() -> int:
     return 0
 
 
+def flip() -> bool:
+    """Alternates between calls; opaque to the checker."""
+    _flip[0] = not _flip[0]
+    return _flip[0]
+
+
 def zero() -> int:
     """An int the checker cannot constant-fold (loop counters start here)."""
     return 0
